@@ -57,3 +57,8 @@ TEXT["C20"] = dict(
     level="Exhaustive on the stated grid: every (ntotal <= 130, ndim <= 4, index, 11 radii) in quick, ntotal to 1100 (all perfect powers) and ndim to 6 in thorough; symmetry over all pairs; decomposition bijection on every hypercube up to 20000 (300000) cells.",
     note="Points whose exact distance is within 1e-5 (relative) of the radius are don't-cares (f32 rounding of sqrt).",
 )
+TEXT["C06"] = dict(
+    technique="runtime monitoring: trace checker over events emitted by a harness-registered probe instruction (offline comparison with the documented iteration sequence) + differential step monitor against the unfolding rules",
+    level="Exploration with exhaustive small loop counts: every n in -1..6 (12 thorough) for each loop kind, generated bodies with conditionals and loops nested to depth 3; the probe trace (INDEX stack, INTEGER top) is compared event by event with the documented sequence and the loops must leave nothing behind; every single step of these programs and of random control programs is judged against the reference unfolding rules.",
+    note="CODE.LOOP's whole-loop behaviour is a known finding (re-arm shape pinned by a unit test); its single-step shape is still judged, so a change to it is reported under a different signature.",
+)
